@@ -1,6 +1,7 @@
 //! pvc-ks: checks C03, C04.  usage: pvc-ks <Cxx> --tier quick|thorough [--replay f] [--only family]
 
 pub mod c03;
+pub mod c03b;
 pub mod kit;
 pub mod c04;
 
